@@ -13,7 +13,7 @@ CLASSES = {"null", "emptyString", "negative", "zero", "gtInt64", "gtUint64", "ne
            "emptyArray", "boolean", "longString", "shortAddress", "badHexAddress", "unknownCurrency", "nullValueAmount", "float", "delete"}
 MC = dict(Classes=CLASSES, Paths={"check", "honest", "direct"}, Outcomes={"reject", "accept"})
 FAMILIES = ["benign", "stake", "deleg", "alleg", "eth", "erc20", "gov", "ons", "olvm", "bid"]
-HISTORY_FAMILIES = ["base", "stake", "deleg", "alleg", "eth", "eth5", "valset", "failing", "gov", "govmix", "ons", "onsmix", "olvm", "erc20", "bid", "bidmix"]
+HISTORY_FAMILIES = ["base", "stake", "deleg", "alleg", "eth", "eth5", "valset", "failing", "gov", "govmix", "ons", "onsmix", "olvm", "erc20", "bid", "bidmix", "base@gas"]
 
 
 def run(ctx, replay):
